@@ -1,5 +1,20 @@
 from vcommon import Suite
 
+
+def rewrite_counter_imports(dst):
+    """In the scratch copy only: route sync/atomic and sync of internal/counter
+    through the yielding shims (import lines only; same rewrite as C03)."""
+    d = dst / "internal" / "counter"
+    for p in d.glob("*.go"):
+        if p.name.endswith("_test.go"):
+            continue
+        t = p.read_text()
+        t2 = t.replace('\t"sync/atomic"\n', '\tatomic "golang.org/x/telemetry/internal/verifh/shim/vatomic"\n')
+        t2 = t2.replace('\t"sync"\n', '\tsync "golang.org/x/telemetry/internal/verifh/shim/vsync"\n')
+        if t2 != t:
+            p.write_text(t2)
+
+
 SPEC = {
     "id": "C15",
     "title": "Stack counter names identify call stacks faithfully and within bounds",
@@ -18,13 +33,26 @@ SPEC = {
                    "StackCounter.Inc through generated chains with depth 0..64, pcs captured independently in the leaf, "
                    "cache read through an injected exporter. distinct = distinct case lines; every case compares "
                    "implementation output with the model and evaluates the property oracles on the implementation output"),
+        Suite(name="stackconc", harness="vh_stackconc", runner="stackconc",
+              model_deps=["theories/Model/StackConc.vo"],
+              quick_n=300, thorough_n=6000, rewrite=rewrite_counter_imports, tags="verif,verifconc",
+              rule="each case is one scenario: 2-4 goroutines calling the real StackCounter.Inc 1-3 times each, goroutines "
+                   "with the same stack id from the SAME call stack (same function, call site and goroutine entry), in a "
+                   "copy whose internal/counter imports sync and sync/atomic through the yielding shims, under the "
+                   "deterministic scheduler (a mutex acquisition and every atomic operation outside a critical section "
+                   "is a scheduling point): every schedule with <= 2 (thorough: 3) forced context switches of four fixed "
+                   "configurations (2 and 3 goroutines on one stack, 2+1 Incs, two stacks) plus random schedules; after "
+                   "quiescence Counters()/values/ReadStack are compared with Model/StackConc and checked: one counter "
+                   "per call stack, holding all its Incs. distinct = distinct scenario+schedule+observation lines"),
     ],
     "technique": "Coq proof (structural induction over frame lists, lines and Inc histories; integer rendering proved "
                  "injective for all N/Z) + translator-generated constants + differential correspondence of the extracted "
                  "model against the real EncodeStack/DecodeStack/StackCounter.Inc",
     "level_text": "Machine-checked theorems over the Gallina model of EncodeStack (ditto compression, %+d/%d/%x rendering, "
                   "truncation), DecodeStack, IsStackCounter and the per-pc-slice cache of StackCounter.Inc, for all prefixes, "
-                  "all frame lists, all byte strings and all Inc histories (no size bound): same pcs -> same counter, "
+                  "all frame lists, all byte strings and all Inc histories (no size bound): same pcs -> same counter "
+                  "(sequentially, and concurrently: every interleaving of any number of goroutines' Incs - atomic under "
+                  "c.mu - leaves exactly one counter per call stack holding all its Incs), "
                   "different pcs -> different counter and (untruncated, symboliser injective) different name; rendering "
                   "injective on frame lists; length <= 4096 always and exactly 4096 with the marker when truncated; "
                   "decode(encode) = uncompressed rendering for all frames whose function name has no newline and whose "
@@ -45,6 +73,9 @@ SPEC = {
                   "call stacks is an assumption on the runtime (tested by the cache cases). Totality of DecodeStack is by "
                   "construction in the model; for the Go code it is tested (recover) on arbitrary strings.",
     "assumptions": [
+        "concurrency: one Inc is one atomic step because c.mu is held from lookup to the increment (checked by the "
+        "stackconc suite under the deterministic scheduler: scheduling points at mutex acquisition and at atomic "
+        "operations outside critical sections); the mutex/atomic shims and the import rewrite are trusted",
         "runtime.CallersFrames / Func.FileLine (the symboliser) is a Section variable: frames are taken as given; "
         "name injectivity on pcs assumes it is injective and yields well-formed function names",
         "runtime.Callers returns equal pc slices for equal call stacks and different ones for different stacks",
@@ -52,5 +83,6 @@ SPEC = {
         "64-bit uintptr (PC-Entry is sent as computed by Go); strings are byte sequences",
     ],
     "trusted_base": [],
-    "own_objects": ["theories/Props/C15.vo", "theories/Proofs/StackFacts.vo", "theories/Model/Stack.vo", "theories/Lib/Digits.vo"],
+    "own_objects": ["theories/Props/C15.vo", "theories/Proofs/StackFacts.vo", "theories/Model/Stack.vo", "theories/Lib/Digits.vo",
+                    "theories/Proofs/StackConcFacts.vo", "theories/Model/StackConc.vo"],
 }
